@@ -146,7 +146,7 @@ fn case(tier: Tier, rng: &mut Rng, rep: &mut Report) {
         let allowed: Vec<u8> = (0..4u8).filter(|_| rng.chance(0.75)).collect();
         query["road_classes"] = json!(allowed);
     }
-    let mut qc = QueryCase { world, cut: vec![], query, alg: Alg::Dijkstra, od: Od::Vertex(0, None), reverse: false };
+    let mut qc = QueryCase { world, cut: vec![], query, alg: Alg::Dijkstra, od: Od::Vertex(0, None), reverse: false, via_files: rng.chance(0.2) };
     let si = match qc.build() {
         Ok(s) => s,
         Err(e) => {
